@@ -1153,9 +1153,9 @@ func TestC14(t *testing.T) {
 		c.Check(t, "qc-random", hx.N(1500, 12000), func(cs *hx.Case) {
 			rt := cs.RT()
 			n := rapid.IntRange(lo, hi).Draw(rt, "n")
-			paths := []string{"proposal", "block", "smr", "collect", "tdpos", "xpoa", "tdpos-term", "xpoa-change"}
+			paths := []string{"proposal", "block", "smr", "collect", "tdpos", "xpoa", "tdpos-term", "xpoa-change", "xpoa-reorg"}
 			path := rapid.SampledFrom(paths).Draw(rt, "path")
-			if (path == "tdpos-term" || path == "xpoa-change") && n < 2 {
+			if (path == "tdpos-term" || path == "xpoa-change" || path == "xpoa-reorg") && n < 2 {
 				n = 2 // a one-member set cannot be changed into a different one of the same size
 			}
 			collector := 0
@@ -1248,7 +1248,7 @@ func TestC14(t *testing.T) {
 func c14EnumPaths(n int, thorough bool) []string {
 	switch {
 	case thorough && n >= 2:
-		return []string{"proposal", "block", "smr", "collect", "tdpos", "xpoa", "tdpos-term", "xpoa-change"}
+		return []string{"proposal", "block", "smr", "collect", "tdpos", "xpoa", "tdpos-term", "xpoa-change", "xpoa-reorg"}
 	case thorough:
 		return []string{"proposal", "block", "smr", "collect", "tdpos", "xpoa"}
 	case n >= 7:
@@ -1257,14 +1257,14 @@ func c14EnumPaths(n int, thorough bool) []string {
 		return []string{"proposal", "block", "smr", "collect"}
 	}
 	if n >= 2 {
-		return []string{"proposal", "block", "smr", "collect", "tdpos", "xpoa", "tdpos-term", "xpoa-change"}
+		return []string{"proposal", "block", "smr", "collect", "tdpos", "xpoa", "tdpos-term", "xpoa-change", "xpoa-reorg"}
 	}
 	return []string{"proposal", "block", "smr", "collect", "tdpos", "xpoa"}
 }
 
 // c14EnumVariants: the placement / order / delivery variants enumerated for (n, path).
 func c14EnumVariants(n int, path string, thorough bool) []c14Variant {
-	plugin := path == "tdpos" || path == "xpoa" || path == "tdpos-term" || path == "xpoa-change"
+	plugin := path == "tdpos" || path == "xpoa" || path == "tdpos-term" || path == "xpoa-change" || path == "xpoa-reorg"
 	var vs []c14Variant
 	switch {
 	case thorough && !plugin:
@@ -1298,6 +1298,8 @@ func c14EnumVariants(n int, path string, thorough bool) []c14Variant {
 // view is still Ring[0..n): signatures of the newly elected keys are "non-member" entries and must not count.
 // Path xpoa-change: the same situation for xpoa - blocks 0..6, block 3 changes the validator set (effective three
 // blocks later): the proposer of block 7 comes from the new set, the certificate over block 6 is judged by the old.
+// Path xpoa-reorg: the instance first judged a block on a branch A with that change, then the trunk switched to a
+// branch B without it: the block of B under check and its certificate are judged by the initial set.
 
 type c14Block struct {
 	proposer string
@@ -1466,9 +1468,9 @@ func c14PluginOf(name string, n int) (*c14Plugin, error) {
 		// term 1 begins at init+3000ms; init+6000ms is block position 1 of proposer 0
 		ts = (c14TdposInitMs + 6000) * 1000000
 		ts0 = (c14TdposInitMs + 1) * 1000000
-	case "xpoa-change":
+	case "xpoa-change", "xpoa-reorg":
 		if n < 2 {
-			return nil, fmt.Errorf("descriptor: path xpoa-change needs n >= 2")
+			return nil, fmt.Errorf("descriptor: path %s needs n >= 2", name)
 		}
 		certified = 6
 		fallthrough
@@ -1500,7 +1502,7 @@ func c14PluginOf(name string, n int) (*c14Plugin, error) {
 		}
 		l.chain = append(l.chain, b)
 	}
-	if name == "xpoa-change" {
+	if name == "xpoa-change" || name == "xpoa-reorg" {
 		// block 3 carries the transaction that changes the validator set: snapshots of blocks >= 3 report the new
 		// set. The proposer of block 7 is taken from the snapshot of block 3 (new set), the validators of the
 		// certified view 6 from the snapshot of block 2 (still the initial set).
@@ -1511,6 +1513,9 @@ func c14PluginOf(name string, n int) (*c14Plugin, error) {
 		vb, _ := json.Marshal(map[string][]string{"address": addrs})
 		l.snap = map[string][]byte{"_validates": vb}
 		l.snapFrom = 3
+		if name == "xpoa-reorg" {
+			l.snapFrom = 2 // on branch A the change is old enough to govern the certified view as well
+		}
 	}
 	if name == "tdpos-term" {
 		// the election result every snapshot answers with: candidates = the elected set, ballots descending
@@ -1548,6 +1553,33 @@ func c14PluginOf(name string, n int) (*c14Plugin, error) {
 		return nil, fmt.Errorf("harness: cannot create a %s instance for n=%d", name, n)
 	}
 	p := &c14Plugin{impl: impl, ledger: l, ts: ts, term: 1, bpos: 1}
+	if name == "xpoa-reorg" {
+		// the instance follows branch A (the chain built above, validator set changed in block 3) and judges a block on
+		// it; then the trunk switches to branch B, forked off at the root, on which nothing was changed: every block
+		// of B is judged by the initial set, whatever the instance learnt on A
+		warm, err := cbftCommon.NewToOldQC(&cbft.QuorumCert{
+			VoteInfo:         &cbft.VoteInfo{ProposalId: c14CertifiedID, ProposalView: int64(certified), ParentId: ids[certified-1], ParentView: int64(certified - 1)},
+			LedgerCommitInfo: &cbft.LedgerCommitInfo{},
+		})
+		if err != nil {
+			return nil, fmt.Errorf("harness: %v", err)
+		}
+		st, _ := json.Marshal(cbftCommon.ConsensusStorage{Justify: warm, CurTerm: 1, CurBlockNum: 1})
+		a7 := &c14Block{proposer: hx.Ring[0].Address, height: int64(certified + 1), id: []byte("c14-branch-a-block-at-height-007"), pre: c14CertifiedID, storage: st, ts: ts}
+		impl.CheckMinerMatch(&xctx.BaseCtx{XLog: c14NopLog{}, Timer: timer.NewXTimer()}, a7)
+		for h := 1; h <= certified; h++ {
+			b := *l.chain[h]
+			if h < certified {
+				b.id = []byte(fmt.Sprintf("c14-branch-b-block-at-height-00%d", h))
+			}
+			if h > 1 {
+				b.pre = l.chain[h-1].id
+			}
+			nb := b
+			l.chain[h] = &nb
+		}
+		l.snap, l.snapFrom = nil, 0
+	}
 	if name == "tdpos-term" {
 		// the first slot of term 2 that belongs to position 0 (= validator 0, top of the ballot)
 		sch := tdpos.VerifScheduleOf(impl)
@@ -1604,4 +1636,5 @@ func init() {
 	c14ExtraPaths["xpoa"] = c14RunPlugin("xpoa")
 	c14ExtraPaths["tdpos-term"] = c14RunPlugin("tdpos-term")
 	c14ExtraPaths["xpoa-change"] = c14RunPlugin("xpoa-change")
+	c14ExtraPaths["xpoa-reorg"] = c14RunPlugin("xpoa-reorg")
 }
